@@ -214,14 +214,40 @@ func runC17(c *Ctx) {
 	n1 := 0
 	for _, f := range p.FuncsOfPkg("loader") {
 		var unm []*ssa.Call
+		dataArg := map[*ssa.Call]int{}
+		isYamlUnmarshal := func(call *ssa.Call) bool {
+			o := CalleeObj(&call.Call)
+			return o != nil && o.Pkg() != nil && strings.HasPrefix(o.Pkg().Path(), "gopkg.in/yaml") && o.Name() == "Unmarshal"
+		}
+		readsFile := false
 		AllInstrs(f, func(in ssa.Instruction) {
-			if call, ok := in.(*ssa.Call); ok {
-				if o := CalleeObj(&call.Call); o != nil && o.Pkg() != nil && strings.HasPrefix(o.Pkg().Path(), "gopkg.in/yaml") && o.Name() == "Unmarshal" {
-					unm = append(unm, call)
-				}
+			call, ok := in.(*ssa.Call)
+			if !ok {
+				return
+			}
+			if o := CalleeObj(&call.Call); o != nil && o.Pkg() != nil && o.Pkg().Path() == "os" && o.Name() == "ReadFile" {
+				readsFile = true
+			}
+			if isYamlUnmarshal(call) {
+				unm = append(unm, call)
+				dataArg[call] = 0
+				return
+			}
+			// a loader helper that hands one of its parameters to yaml.Unmarshal as the data
+			if w := call.Call.StaticCallee(); w != nil && len(w.Blocks) > 0 && pkgOfFunc(w) == pkgOfFunc(f) {
+				AllInstrs(w, func(x ssa.Instruction) {
+					if wc, isC := x.(*ssa.Call); isC && isYamlUnmarshal(wc) {
+						for i, prm := range w.Params {
+							if stripConv(wc.Call.Args[0]) == ssa.Value(prm) && i < len(call.Call.Args) {
+								unm = append(unm, call)
+								dataArg[call] = i
+							}
+						}
+					}
+				})
 			}
 		})
-		if len(unm) == 0 {
+		if len(unm) == 0 || !readsFile {
 			continue
 		}
 		n1++
@@ -240,7 +266,7 @@ func runC17(c *Ctx) {
 		}
 		var expanded, rawParse, expandCall *ssa.Call
 		for _, u := range unm {
-			arg := stripConv(u.Call.Args[0])
+			arg := stripConv(u.Call.Args[dataArg[u]])
 			if isRaw(arg) {
 				rawParse = u
 				continue
